@@ -8,8 +8,9 @@ from vlib.s3stub import Stub
 from checks.c02 import entries
 
 PID = "C18"
-LEAN_MODULE = "NunVerif.Props.C18"
-THEOREMS = ["Nun.C18_finding_identity_not_stored", "Nun.C18_finding_failed_upload_is_silent", "Nun.C18_snapshot_ignores_reclaim", "Nun.C18_round_trip_witness"]
+LEAN_MODULE = "NunVerif.Props.C18RoundTrip"
+THEOREMS = ["Nun.C18_finding_identity_not_stored", "Nun.C18_finding_failed_upload_is_silent", "Nun.C18_snapshot_ignores_reclaim", "Nun.C18_round_trip_witness",
+            "Nun.C18_s3_roundtrip", "Nun.C18_s3_restores_what_disk_restores", "Nun.s3LoadLoop_encObjs", "Nun.C06_reclaim_roundtrip"]
 
 SETUP = ["RESET", "SESS 1", "C 1 auth adm pw", "C 1 create-db t tok newer", "C 1 use-db t tok"]
 AFTER = ["SESS 1", "C 1 auth adm pw", "C 1 use-db t tok", "C 1 keys", "C 1 get-safe a", "C 1 get-safe b"]
